@@ -14,7 +14,10 @@
 (*   "Curve" / "NfCurve"  the configured NF curve of an amplifier type (uniform table) and observations of its reported   *)
 (*            NF at given loads / gains (C04: NfFollowsModel - OpenROADM ILA polynomial and preamp mask read at the input  *)
 (*            power per 50 GHz slot, polynomial model read at the gain deficit)                                           *)
-(*   "Fiber"  one fibre crossing           (C05: LossBudget, NoMemory, ContribFromConfig + the accumulation clauses)*)
+(*   "Fiber"  one fibre crossing           (C05: LossBudget, NoMemory, ContribFromConfig, CdFromConfig + the            *)
+(*                                          accumulation clauses)                                                  *)
+(*   "Refused" a fibre configuration the constructor refused (C05: RefusedOnlyInvalid - `valid` is the model's        *)
+(*            SpanValid of that configuration; a configuration the constructor ACCEPTS is judged as a fibre)         *)
 (*   "Acc"    accumulators around a ROADM / amplifier crossing (C05: CdLinear, LatencyLinear, PmdQuadrature, ...)    *)
 (*   "End"    final accumulators of one ordering of a set of elements (C05: OrderIndependent, against the first      *)
 (*            "End" of the trace, carried in `ref`)                                                                  *)
@@ -81,6 +84,11 @@ AccClauses(e) ==
    \cup Fails("PmdQuadrature", AccPmdQuadrature(e, TolAcc))
    \cup Fails("PdlQuadrature", AccPdlQuadrature(e, TolAcc))
 
+\* C05: a span with a single-value dispersion D (no slope) adds D x its length to the CD of EVERY channel, whatever the
+\* reference wavelength / frequency its parameters are given at (cdCfg = D x length from the configuration, 1e-3 ps/nm;
+\* NONE: dispersion table or slope - the span's CD is then only required to accumulate linearly)
+FiberCdFromConfig(x, tol) == "cdCfg" \in DOMAIN x /\ x.cdCfg # NONE => \A j \in 1..Len(x.dCd) : Within(x.dCd[j], x.cdCfg, tol)
+
 SameSeq(a, b, tol) == Len(a) = Len(b) /\ \A j \in 1..Len(a) : Within(a[j], b[j], tol)
 EndClauses(e, r) ==
    IF ~r.set THEN {}
@@ -103,7 +111,9 @@ StepClauses(e, r, first) ==
      [] e.k = "Sweep" -> SweepClauses(e)
      [] e.k = "Fiber" -> Fails("LossBudget", FiberLossBudget(e, Tol)) \cup Fails("NoMemory", FiberNoMemory(e, Tol))
                          \cup (IF e.acc = 1 THEN AccClauses(e) \cup Fails("ContribFromConfig", FiberContribFromConfig(e, TolAcc, TolPmdCfg))
+                                                 \cup Fails("CdFromConfig", FiberCdFromConfig(e, TolAcc))
                               ELSE {})
+     [] e.k = "Refused" -> Fails("RefusedOnlyInvalid", e.valid = 0)
      [] e.k = "Acc"   -> AccClauses(e) \cup Fails("ElementContribFromConfig", ElementContribFromConfig(e, TolPmdCfg))
      [] e.k = "End"   -> EndClauses(e, r)
      [] e.k = "Curve" -> {}                                  \* the configured curve of the trace's amplifier (first event)
